@@ -68,7 +68,10 @@ pub fn check_returns(sc: &Scenario) -> CheckResult {
     let tr = guard(|| run_scenario(sc)).map_err(|p| Violation::new("returns", format!("C10 op={op} kind=harness-panic"), p, input.clone()))?;
     let t_packet = if op == "read_card" { sc.cfg.rct as f64 + 2.0 } else { 60.0 };
     // handshakes of reconnects run under the same per-packet time-out as the exchange that needs them
-    let bound = sub_exchanges(op) * 20.0 * (t_packet.max(60.0) + 2.0) + 1.0;
+    // 20 attempts per sub-exchange; an attempt may spend one time-out on the connect, one on each half of the handshake
+    // or one on the exchange itself: three per attempt is a generous finite bound that still separates "returns" from
+    // "hangs" (which runs into the one-virtual-day watchdog)
+    let bound = sub_exchanges(op) * 20.0 * 3.0 * (t_packet.max(60.0) + 2.0) + 1.0;
     let stall_desc = || format!("plan {:?} connect {:?}/{:?}", sc.plan.iter().map(|p| (p.kind, p.occ, p.directive.fault, p.directive.delay)).collect::<Vec<_>>(), sc.connect_plan, sc.connect_default);
     if sc.observe_new {
         if !tr.new_returned {
@@ -268,7 +271,7 @@ pub fn run(tier: Tier) -> i32 {
     stats.exhaustive_parts = vec!["every packet position (ack and each reply, header-only variant, once / on every attempt) of every exchange in the fault-free transcript of each of the 6 operations, plus stalls in the handshake of a forced reconnect and in connect()".into(), "read_card_timeout 0..=255 x {plain, silent terminal, answer at t+1}".into()];
     ctx.finish(
         stats,
-        "the real Feig client against the simulated terminal on tokio's paused clock. Positions come from a fault-free dry run of each operation (handshake included); one stall {silence, packet header then silence} x {once, on every attempt} per position; stalls in the handshake of a forced reconnect; connect() never completing / refused; read_card_timeout 0..=255 exhaustively incl. a terminal answering t+1 s after its ack; proptest-sampled configurations (password, currency, amount, terminal id, max transactions) x stalls. Oracle: under a one-virtual-day watchdog the call returns, without panic, within S(op)*20*(T+2) virtual seconds, and a timeout inside the configured window does not abandon the exchange. non-trivial = stall inside a handshake or at a reply position >= 1, or read_card_timeout in {0,253,254,255}; distinct by scenario",
+        "the real Feig client against the simulated terminal on tokio's paused clock. Positions come from a fault-free dry run of each operation (handshake included); one stall {silence, packet header then silence} x {once, on every attempt} per position; stalls in the handshake of a forced reconnect; connect() never completing / refused; read_card_timeout 0..=255 exhaustively incl. a terminal answering t+1 s after its ack; proptest-sampled configurations (password, currency, amount, terminal id, max transactions) x stalls. Oracle: under a one-virtual-day watchdog the call returns, without panic, within S(op)*20*3*(T+2) virtual seconds, and a timeout inside the configured window does not abandon the exchange. non-trivial = stall inside a handshake or at a reply position >= 1, or read_card_timeout in {0,253,254,255}; distinct by scenario",
         &["time is tokio's paused clock: 'does not return' is decided in virtual time, never by wall clock", "a terminal that keeps sending a packet every 59 s forever is not a stall in the property's sense and is not generated", "in-memory duplex streams; only the current_thread runtime is explored (Feig is driven through &mut self and spawns nothing)"],
         false,
     )
